@@ -30,24 +30,27 @@ var strPool = []string{"x", "y", "v1", "é:+", "(c) 2024", "Apache-2.0", "a b",
 var purlPool = []string{"pkg:npm/a@1", "pkg:npm/b@2", "pkg:deb/debian/c@3", "pkg:/npm/d@4", "pkg:golang/e",
 	// types that are textual prefixes of one another, and a name equal to a type
 	"pkg:go/f@1", "pkg:gem/g", "pkg:gemfury/h", "pkg:generic/npm"}
-var hashVals = []string{"aa", "bb", "cc", ""}
+var hashVals = []string{"aa", "bb", "cc", "AA", "aB", ""}
 var EdgeTypes = []int{5, 10, 0, 1, 44, 77}
 
 func (g *G) Person(depth int) M {
 	m := M{"n": g.Pick([]string{"ACME", "Bob", "", "Org (x)"}), "o": g.Chance(0.5)}
 	if g.Chance(0.3) {
-		m["e"] = g.Pick([]string{"a@b.c", "x@y"})
+		m["e"] = g.Pick([]string{"a@b.c", "x@y", "x@y ", " "})
 	}
 	if g.Chance(0.2) {
-		m["u"] = "http://u"
+		m["u"] = g.Pick([]string{"http://u", "http://u", "\thttp://u"})
 	}
 	if g.Chance(0.2) {
-		m["p"] = "123"
+		m["p"] = g.Pick([]string{"123", "123", "123\u00a0"})
 	}
 	if depth > 0 && g.Chance(0.3) {
 		cs := []any{}
 		for i := 0; i <= g.Int(2); i++ {
 			cs = append(cs, g.Person(depth-1))
+		}
+		if g.Chance(0.3) {
+			cs = append(cs, Normalize(cs[len(cs)-1])) // the same contact listed twice in a row
 		}
 		m["c"] = cs
 	}
